@@ -7,7 +7,7 @@ from . import gen, driver
 def _pack(seed, w, res, opt, extra=None):
     events = list(res.events)
     events.append({"e": "end", "i": len(events), "reason": {"auto": "AUTOMATIC"}.get(res.end, res.end or "none")})
-    o = dict(manual=False, faults=False, allcomplete=False, stopreq=False)
+    o = dict(manual=False, faults=False, allcomplete=False, stopreq=False, stopmid=False)
     o.update(opt)
     return {"seed": seed, "w_tla": w.tla_record(), "events": events, "opt": o, "end": res.end,
             "desc": w.describe(), "launches": [list(x) for x in res.launches], "flow": w.flow_text(), **(extra or {})}
@@ -86,3 +86,91 @@ def crash(job, rng, home):
                  {"plan": plan})
 
 SCENARIOS.update({"restart": restart, "crash": crash})
+
+def _ids_for_cmds(w, rng, k=2):
+    """Some task instance ids (spawned or future) as 'point/name' strings."""
+    out = []
+    for _ in range(k):
+        t = rng.choice(w.tasks)
+        p = rng.randint(w.icp, w.fcp)
+        out.append(f"{p}/{t}")
+    return out
+
+def hold(job, rng, home):
+    """hold / release / hold-point commands at random moments, optionally a stop + restart in between."""
+    import os, random
+    w = gen.generate(rng, features=job.get("features"))
+    oseed, eseed = rng.randrange(1 << 30), rng.randrange(1 << 30)
+    twin, n_events, n_iters = _twin(w, oseed, eseed, home, "complete")
+    outcome = gen.make_outcome(w, random.Random(oseed), "complete")
+    cmds = []
+    for _ in range(rng.randint(1, 4)):
+        it = rng.randint(1, max(1, n_iters))
+        r = rng.random()
+        if r < 0.45:
+            cmds.append((it, "hold", {"tasks": _ids_for_cmds(w, rng, rng.randint(1, 2))}))
+        elif r < 0.65:
+            cmds.append((it, "release", {"tasks": _ids_for_cmds(w, rng, rng.randint(1, 2))}))
+        elif r < 0.9:
+            cmds.append((it, "set_hold_point", {"point": str(rng.randint(w.icp, w.fcp))}))
+        else:
+            cmds.append((it, "release_hold_point", {}))
+    plan = {"cmds": cmds}
+    if rng.random() < 0.6:
+        plan["stop"] = {"iter": rng.randint(2, max(2, n_iters)), "mode": "REQUEST_NOW", "restart": True, "sync": True}
+    res = driver.execute(w.flow_text(), outcome, eseed, os.path.join(home, "main"), plan=plan)
+    return _pack(job["seed"], w, res, {"allcomplete": False, "stopreq": True, "holds": True}, {"plan": plan})
+
+def stopcmds(job, rng, home):
+    """stop requests: at a cycle point / after a task / clean / now, optionally restart afterwards."""
+    import os, random
+    w = gen.generate(rng, features=job.get("features"))
+    oseed, eseed = rng.randrange(1 << 30), rng.randrange(1 << 30)
+    twin, n_events, n_iters = _twin(w, oseed, eseed, home, "complete")
+    outcome = gen.make_outcome(w, random.Random(oseed), "complete")
+    it = rng.randint(1, max(1, n_iters // 2))
+    r = rng.random()
+    plan = {}
+    kind = "point"
+    if r < 0.5:
+        sp = rng.randint(w.icp, w.fcp)
+        plan["cmds"] = [(it, "stop", {"mode": None, "cycle_point": str(sp)})]
+    elif r < 0.7:
+        kind = "task"
+        plan["cmds"] = [(it, "stop", {"mode": None, "task": _ids_for_cmds(w, rng, 1)[0]})]
+    else:
+        kind = rng.choice(["REQUEST_CLEAN", "REQUEST_NOW"])
+        plan["stop"] = {"iter": it, "mode": kind, "restart": rng.random() < 0.5, "sync": False}
+    res = driver.execute(w.flow_text(), outcome, eseed, os.path.join(home, "main"), plan=plan)
+    return _pack(job["seed"], w, res, {"allcomplete": kind == "point", "stopreq": kind != "point", "stopkind": kind,
+                                       "stopmid": kind == "point"},
+                 {"plan": plan})
+
+def warm(job, rng, home):
+    """Warm start: start cycle point after the initial point."""
+    w = gen.generate(rng, features=dict(job.get("features") or {}, max_fcp=5))
+    w.start = rng.randint(w.icp + 1, w.fcp)
+    outcome = gen.make_outcome(w, rng, "complete")
+    res = driver.execute(w.flow_text(), outcome, rng.randrange(1 << 30), home, run_opts={"startcp": str(w.start)})
+    return _pack(job["seed"], w, res, {"allcomplete": True})
+
+def abstrig(job, rng, home):
+    """Absolute triggers ([^]) with an optional stop + restart."""
+    import os, random
+    w = gen.generate(rng, features=dict(job.get("features") or {}, absolute=True, max_fcp=4))
+    oseed, eseed = rng.randrange(1 << 30), rng.randrange(1 << 30)
+    twin, n_events, n_iters = _twin(w, oseed, eseed, home, "complete")
+    outcome = gen.make_outcome(w, random.Random(oseed), "complete")
+    plan = {}
+    r = rng.random()
+    if r < 0.45:
+        plan["stop"] = {"iter": rng.randint(2, max(2, n_iters)), "mode": "REQUEST_NOW", "restart": True, "sync": True}
+    elif r < 0.7:
+        plan["kill"] = {"kind": "emit", "n": rng.randint(20, max(21, n_events - 5)), "down_steps": 0}
+    res = driver.execute(w.flow_text(), outcome, eseed, os.path.join(home, "main"), plan=plan)
+    opt = {"allcomplete": not plan, "stopreq": bool(plan)}
+    if plan:
+        opt.update({"hastwin": True, "twin": twin})
+    return _pack(job["seed"], w, res, opt, {"plan": plan})
+
+SCENARIOS.update({"hold": hold, "stopcmds": stopcmds, "warm": warm, "abstrig": abstrig})
